@@ -600,6 +600,7 @@ func (c *clipperBase) doSplitOp(outrec *OutRec, splitOp *OutPt) {
 	absArea1 := math.Abs(area1)
 
 	if absArea1 < 2 {
+		verifEventLoop("split-drop-path", prevOp)
 		outrec.pts = nil
 		return
 	}
@@ -622,6 +623,7 @@ func (c *clipperBase) doSplitOp(outrec *OutRec, splitOp *OutPt) {
 	}
 
 	if !(absArea2 > 1) || !(absArea2 > absArea1 && (area2 > 0) != (area1 > 0)) {
+		verifEvent("split-drop-tri", ip, splitOp.pt, splitOp.next.pt)
 		return
 	}
 
@@ -1502,6 +1504,7 @@ func (c *clipperBase) checkJoinRight(e *Active, pt Point64, checkCurrX bool) {
 	if !isCollinear(e.top, pt, next.top) {
 		return
 	}
+	verifEvent("join", verifLastPt(e), pt, verifLastPt(next))
 
 	if e.outrec.idx == next.outrec.idx {
 		c.addLocalMaxPoly(e, next, pt)
@@ -1539,6 +1542,7 @@ func (c *clipperBase) checkJoinLeft(e *Active, pt Point64, checkCurrX bool) {
 	if !isCollinear(e.top, pt, prev.top) {
 		return
 	}
+	verifEvent("join", verifLastPt(prev), pt, verifLastPt(e))
 
 	if e.outrec != nil && prev.outrec != nil && e.outrec.idx == prev.outrec.idx {
 		c.addLocalMaxPoly(prev, e, pt)
